@@ -388,7 +388,7 @@ impl Family for Small {
         if !o.res.is_ok() {
             return Err(Violation::new("result-not-ok", format!("run_on returned {}", o.res.short())));
         }
-        let d = decode_all(&o.sim.out, &conv, &s.last_seq, 2, false).map_err(|e| Violation::new("reply-decode", e))?;
+        let d = decode_all(delivered(&o), &conv, &s.last_seq, 2, false).map_err(|e| Violation::new("reply-decode", e))?;
         match &d.replies[0][..] {
             [Unit::ResultSet { rows, .. }] if rows.len() == 100 => {
                 for (i, l) in lens.iter().enumerate() {
@@ -444,7 +444,7 @@ impl Family for MidSizes {
             return Err(Violation::new("result-not-ok", format!("run_on returned {}", o.res.short())));
         }
         split_packets(&o.sim.out).map_err(|e| Violation::new("ill-framed", e))?;
-        let d = decode_all(&o.sim.out, &conv, &s.last_seq, 2, false).map_err(|e| Violation::new("reply-decode", format!("{} rows of 100 bytes then a cell of {} bytes: {}", lead_rows, size, e)))?;
+        let d = decode_all(delivered(&o), &conv, &s.last_seq, 2, false).map_err(|e| Violation::new("reply-decode", format!("{} rows of 100 bytes then a cell of {} bytes: {}", lead_rows, size, e)))?;
         match &d.replies[0][..] {
             [Unit::ResultSet { rows, .. }] if rows.len() == lead_rows + 2 => {
                 for r in 0..lead_rows {
